@@ -318,6 +318,8 @@ class Machine:
 
     def operand(self, env, s):
         s = s.strip()
+        if s.startswith("no_retag "):
+            s = s[len("no_retag "):]
         if s.startswith("copy ") or s.startswith("move "):
             return self.read_place(env, s[5:])
         if s.startswith("const "):
@@ -330,6 +332,15 @@ class Machine:
         pc = re.match(r"^(copy|move|const) (.+) as (.+?) \(PointerCoercion\(.*\)\)$", rv)
         if pc:
             return self.operand(env, pc.group(1) + " " + pc.group(2))
+        if rv.startswith("no_retag "):
+            rv = rv[len("no_retag "):]
+        cl = re.match(r"^(\{closure@[^}]*\})(?: \{ (.*) \})?$", rv)
+        if cl:
+            fields = []
+            for fld in split_top(cl.group(2) or ""):
+                fn_, fv = fld.split(":", 1)
+                fields.append(self.operand(env, fv))
+            return Adt(cl.group(1), fields)
         m = re.match(r"^(copy|move|const) (.+) as (\w+) \((\w+)\)$", rv)
         if rv.startswith(("copy ", "move ", "const ")) and not m:
             return self.operand(env, rv)
@@ -460,6 +471,12 @@ class Machine:
                     # inherent method `Ty::meth`: MIR name is `mod::<impl at ..>::meth`; the impl's
                     # Self type is not in the name, so demand uniqueness of (method, arity)
                     cands.append(f)
+        if len(cands) > 1 and not m:
+            # inherent `Ty::meth`: the impl's Self type is not in the MIR name; use the signature
+            ty_ = re.sub(r"<.*$", "", name.split("::")[-2]) if "::" in name else ""
+            narrowed = [c for c in cands if last(c.ret) == ty_ or (c.params and last(c.params[0][1]) == ty_)]
+            if narrowed:
+                cands = narrowed
         if len(cands) > 1 and all(c.name == cands[0].name and c.params == cands[0].params and c.ret == cands[0].ret for c in cands):
             # `const fn`s are dumped twice (CTFE and runtime MIR of the same item)
             cands = cands[-1:]
@@ -819,7 +836,66 @@ def m_deref(mach, name, args):
     return [(T(), "ret", v if isinstance(v, Ref) else Ref(v))]
 
 
+def m_checked(kind):
+    def f(mach, name, args):
+        a, b = args
+        w = a.size()
+        ea, eb = z3.ZeroExt(w, a), z3.ZeroExt(w, b)
+        mx = z3.BitVecVal((1 << w) - 1, 2 * w)
+        if kind == "sub":
+            ok = z3.UGE(a, b)
+            full = ea - eb
+        else:
+            full = ea + eb if kind == "add" else ea * eb
+            ok = z3.ULE(full, mx)
+        return [(ok, "ret", Adt("Option", [z3.Extract(w - 1, 0, full)], "Some")),
+                (z3.Not(ok), "ret", Adt("Option", [], "None"))]
+    return f
+
+
+def call_closure(mach, clos, args):
+    """execute the MIR body of a closure value (Adt named `{closure@...}`)"""
+    if not (isinstance(clos, Adt) and clos.name.startswith("{closure@")):
+        raise Unsupported("not a closure: %r" % (clos,))
+    cands = [g for g in mach.funcs if g.params and g.params[0][1].lstrip("&").replace("mut ", "") == clos.name]
+    if len(cands) != 1:
+        raise Unsupported("closure %s: %d bodies" % (clos.name, len(cands)))
+    first = clos if not cands[0].params[0][1].startswith("&") else Ref(clos)
+    return mach.exec_fn(cands[0], [first] + list(args))
+
+
+def m_is_some_and(mach, name, args):
+    opt, clos = args
+    if not isinstance(opt, Adt) or opt.variant not in ("Some", "None"):
+        raise Unsupported("is_some_and on %r" % (opt,))
+    if opt.variant == "None":
+        return [(T(), "ret", z3.BoolVal(False))]
+    return call_closure(mach, clos, [opt.fields[0]])
+
+
+def m_option_map(mach, name, args):
+    opt, clos = args
+    if not isinstance(opt, Adt) or opt.variant not in ("Some", "None"):
+        raise Unsupported("Option::map on %r" % (opt,))
+    if opt.variant == "None":
+        return [(T(), "ret", Adt("Option", [], "None"))]
+    return [(c, k, (Adt("Option", [v], "Some") if k == "ret" else v)) for (c, k, v) in call_closure(mach, clos, [opt.fields[0]])]
+
+
+def m_opt_unwrap_or(mach, name, args):
+    opt, d = args
+    if not isinstance(opt, Adt) or opt.variant not in ("Some", "None", "Ok", "Err"):
+        raise Unsupported("unwrap_or on %r" % (opt,))
+    return [(T(), "ret", opt.fields[0] if opt.variant in ("Some", "Ok") else d)]
+
+
 CORE_MODELS = {
+    r"^core::num::<impl \w+>::checked_add$": m_checked("add"),
+    r"^core::num::<impl \w+>::checked_sub$": m_checked("sub"),
+    r"^core::num::<impl \w+>::checked_mul$": m_checked("mul"),
+    r"^Option::<.*>::is_some_and::<.*>$": m_is_some_and,
+    r"^Option::<.*>::map::<.*>$": m_option_map,
+    r"^Option::<.*>::unwrap_or$": m_opt_unwrap_or,
     r"^<Result<.*> as (std::ops::)?Try>::branch$": m_try_branch,
     r"^<Result<.*> as (std::ops::)?FromResidual<.*>>::from_residual$": m_from_residual,
     r"^<Arc<.*> as (std::ops::)?Deref>::deref$": m_deref,
